@@ -243,11 +243,13 @@ theorem struct_meets_spec (c : Case) (hwf : wf c = true) (hk : known c = []) : s
     simpa using k3
   have hcached := spec_cached c
   simp only [Bool.and_eq_true] at hcached
+  have hmi : (model c).initSubclass = initSubclassCalls c := rfl
+  have hmh : (model c).hookCalls = hookCalls c := rfl
   unfold spec
   simp only [Bool.and_eq_true]
-  refine ⟨⟨⟨⟨⟨⟨⟨⟨⟨⟨⟨⟨⟨⟨⟨spec_keys c hb, spec_slotCount c hn hl⟩, ?_⟩, ?_⟩, ?_⟩, spec_setUnknown c⟩,
+  refine ⟨⟨⟨⟨⟨⟨⟨⟨⟨⟨⟨⟨⟨⟨⟨⟨⟨⟨⟨spec_keys c hb, spec_slotCount c hn hl⟩, ?_⟩, ?_⟩, ?_⟩, spec_setUnknown c⟩,
     spec_demanded c hb⟩, calls_all_new c hb hw⟩, spec_cells c hw⟩, hcached.1.1.1⟩, hcached.1.1.2⟩,
-    hcached.1.2⟩, hcached.2⟩, ?_⟩, ?_⟩, ?_⟩
+    hcached.1.2⟩, hcached.2⟩, ?_⟩, ?_⟩, ?_⟩, ?_⟩, ?_⟩, ?_⟩, ?_⟩
   · have : (model c).hasDict = instHasDict c := rfl
     rw [this, hasDict_iff c hn hb]; simp
   · have : (model c).weakrefable = instWeakrefable c := rfl
@@ -257,6 +259,21 @@ theorem struct_meets_spec (c : Case) (hwf : wf c = true) (hk : known c = []) : s
     simp only [Bool.and_eq_true] at this
     rw [this]; simp
   · rw [hreset]; simp
+  · have : (model c).assignAgree = ((model c).setattrReset == dictReset c) := rfl
+    rw [this, hreset]; simp
+  · rfl
+  · rw [hmh]
+    unfold hookCalls
+    split
+    · rfl
+    · exact calls_all_new c hb hw
+  · rw [hmi, hmh]
+    unfold hookCalls
+    cases he : (initSubclassCalls c).isEmpty with
+    | true => simp
+    | false =>
+      simp only [Bool.false_eq_true, if_false, Bool.false_or]
+      exact spec_demanded c hb
   · rfl
 
 end Attrs.C08
